@@ -1271,6 +1271,9 @@ class OFConnection (object):
 
   def close (self):
     self.io_worker.shutdown()
+    if len(self.io_worker.send_buf) == 0:
+      # Nothing left to flush, so nothing would ever trigger the shutdown
+      self.io_worker.close()
 
   def get_controller_id (self):
     """
